@@ -189,7 +189,7 @@ func (e *Env) hintFormula(x Expr, unfold bool) string {
 		}
 		lhs, _ := n.tr(c)
 		body := n.unfoldEq(c)
-		return "(forall (" + strings.Join(decl, " ") + ") (! " + body + " :pattern (" + lhs + ")))"
+		return "(forall (" + strings.Join(decl, " ") + ") (! " + body + " :pattern (" + lhs + ") :qid unfold_" + mangle(strings.SplitN(strings.TrimPrefix(lhs, "("), " ", 2)[0]) + "))"
 	}
 	c, ok := x.(*Call)
 	if !ok {
